@@ -1076,6 +1076,7 @@ func genHotHistory(g *hx.Gen) {
 		g.Emit("rollback %d", q.id)
 	}
 	g.Emit("reopen")
+	c.nTx, c.nCur = 0, 0
 	q := c.begin("ro")
 	g.Emit("each %d .", q.id)
 	g.Emit("rollback %d", q.id)
